@@ -237,6 +237,7 @@ impl Spy {
                 if eligible.len() >= 2 && m * 2 == eligible.len() {
                     probe("consensus-tie");
                 }
+                ev!("ctl consensus m={m} eligible={} of {}", eligible.len(), dec.len());
                 if steered {
                     probe("steer-decision");
                     check!(
@@ -522,10 +523,18 @@ impl InternalTimeSyncController for Spy {
         }
         let update = self.inner.source_message(id, message);
         ev!(
-            "ctl -> used={:?} msg={} next={:?}",
+            "ctl -> used={:?} msg={} next={:?} view={}",
             update.used_sources,
             update.source_message.is_some(),
-            update.next_update
+            update.next_update,
+            match &decision {
+                None => "skipped".to_string(),
+                Some(d) => d
+                    .iter()
+                    .map(|s| format!("{}:{}{}{:.6}", s.id, if s.usable { "u" } else { "-" }, if s.has_snapshot { "s" } else { "-" }, s.offset))
+                    .collect::<Vec<_>>()
+                    .join(","),
+            }
         );
         self.after_update("source_message", decision, &update, false);
         update
@@ -749,8 +758,13 @@ impl SrcTask {
             if simkit::out_of_budget() || exec::has_crashed() {
                 break;
             }
+            // scenario sources all live for the same 600 simulated seconds, so that every
+            // one of them is past its start-up samples while the others still measure
+            if self.scenario && simkit::now_ns() > 600_000_000_000 {
+                break;
+            }
             // spacing: at least 1 ms beyond the exchange itself
-            let k = if self.scenario { 1 + choose("src.spacing", 5) } else { weighted("src.spacing", &[6, 6, 5, 4, 3, 2, 2, 1, 1, 1]) as u64 + self.spacing_bias };
+            let k = if self.scenario { 1 + choose("src.spacing", 4) } else { weighted("src.spacing", &[6, 6, 5, 4, 3, 2, 2, 1, 1, 1]) as u64 + self.spacing_bias };
             let wait_ns = match k {
                 0 => 1_000_000 + choose("src.sp.ms", 999) * 1_000_000,
                 k => {
@@ -853,7 +867,9 @@ pub fn run() {
             forward: thr.map(NtpDuration::from_seconds),
             backward: thr.map(NtpDuration::from_seconds),
         };
-        sync.single_step_panic_threshold = StepThreshold { forward: None, backward: None };
+        // the daemon leaves start-up at its first consensus even if it does not steer then, so the
+        // same bound is configured for both phases: whichever applies, 3x is outside and 0.3x inside
+        sync.single_step_panic_threshold = sync.startup_step_panic_threshold;
         sync.accumulated_step_panic_threshold = None;
         sync.minimum_agreeing_sources = sync.minimum_agreeing_sources.min(n_src);
         scenario_big = thr.is_some() && chance("sc.big", 0.5);
@@ -984,7 +1000,7 @@ pub fn run() {
                     poll_interval_limits: limits,
                     initial_poll_interval: limits.min,
                 },
-                nops: if scenario { 40 } else { 10 + choose("cfg.nops", 120) },
+                nops: if scenario { 2000 } else { 10 + choose("cfg.nops", 120) },
                 spacing_bias: if !scenario && chance("cfg.slowpoll", 0.15) { 6 } else { 0 },
                 scenario,
             };
